@@ -534,6 +534,17 @@ async fn run_with(c: Case, limit: u16, steps: Vec<Op>, write_hw: usize) -> Resul
     if let Some(e) = ev[stop_at + 1..].iter().find(|e| matches!(e, Ev::Stop(_))) {
         return Err(fail(&c, "control-called-after-stop", format!("{e:?} after the Stop notification; events {:?}", brief_events(&ev))));
     }
+    // an application that does not know yet supplies the next chunk of a streamed publish after the connection is gone:
+    // that send must come back with an error, it is a pending send like any other
+    let live_streams = w.streams.iter().filter(|s| s.live && s.chunk_slot.is_none() && s.handle.is_some()).count();
+    let mut late_chunk = false;
+    if live_streams > 0 && w.slots.iter().all(|s| s.fut.is_none()) {
+        let before = w.slots.len();
+        let _ = w.apply(Op::Chunk { stream: 0, len: 1 }).await;
+        w.eut.settle().await;
+        w.poll_all();
+        late_chunk = w.slots.len() > before;
+    }
     // (2) every owned future resolved
     if let Some((i, s)) = w.slots.iter().enumerate().find(|(_, s)| s.fut.is_some()) {
         return Err(Failure::new(
@@ -614,6 +625,7 @@ async fn run_with(c: Case, limit: u16, steps: Vec<Op>, write_hw: usize) -> Resul
         (resolved_disc > 0, "futures-resolved-disconnected"),
         (c.hold_stop, "stop-held"),
         (late_send, "send-started-while-stop-is-handled"),
+        (late_chunk, "chunk-supplied-after-the-end"),
         (ev.iter().any(|e| matches!(e, Ev::PubDrop { .. } | Ev::CtlDrop { .. })), "handler-cancelled"),
     ] {
         if on {
